@@ -1,28 +1,47 @@
-# Table of sub-checks per property: test name (TestXxx in harness/checks), case counts and shards per tier.
-def sub(name, quick, thorough, **kw):
-    d = dict(name=name, quick=dict(cases=quick[0], shards=quick[1]), thorough=dict(cases=thorough[0], shards=thorough[1]))
-    for t in ("quick", "thorough"):
-        if "timeout" in kw:
-            d[t]["timeout"] = kw["timeout"]
-    d.update({k: v for k, v in kw.items() if k != "timeout"})
-    return d
+"""Loads the per-property check tables from bin/table.d/<ID>.json.
 
-
-def fuzz(name, fuzztime, **kw):
-    return dict(name=name, kind="fuzz", tiers=("thorough",), thorough=dict(fuzztime=fuzztime, cases=0, shards=1, timeout=1200), **kw)
-
-
-CHECKS = {
-    "C16": [
-        sub("C16RoundTrip", (6000, 2), (60000, 6), hang_is_violation=True),
-        sub("C16Differential", (10000, 2), (100000, 6), hang_is_violation=True),
-        sub("C16Semantics", (3000, 2), (30000, 4)),
-    ],
+Format of one file:
+{
+ "level": "exploration" | "fault_enumeration",
+ "assumptions": ["..."],
+ "meta": {"engine": "...", "technique": "...", "design_ref": "...", "level_text": "...", "level_note": "..."},
+ "subs": [
+   {"name": "C16RoundTrip",                    # TestC16RoundTrip in harness/checks
+    "quick":    {"cases": 6000,  "shards": 2, "timeout": 600},
+    "thorough": {"cases": 60000, "shards": 6, "timeout": 1500},
+    "tiers": ["quick", "thorough"],            # optional, default both
+    "race": false,                             # optional: use the -race binary
+    "hang_is_violation": false,                # optional: a test timeout with a current-case file is a violation (pure parsers only)
+    "gomaxprocs": 4},                          # optional
+   {"name": "FuzzC16Differential", "kind": "fuzz", "tiers": ["thorough"], "thorough": {"fuzztime": "60s", "timeout": 900}}
+ ]
 }
+"""
+import glob
+import json
+import os
 
-LEVEL = {"C11": "fault_enumeration", "C20": "fault_enumeration"}
+_D = os.path.join(os.path.dirname(os.path.abspath(__file__)), "table.d")
 
-ASSUMPTIONS = {
-    "C16": ["Go's regexp package decides language membership correctly for the generated grammar subset (it is compared with an independent backtracking matcher, so this is cross-checked, not assumed, for that subset)",
-            "the 'parser panic' recovery inside parse.Matchers is treated as a panic"],
-}
+CHECKS = {}
+LEVEL = {}
+ASSUMPTIONS = {}
+META = {}
+
+for _f in sorted(glob.glob(os.path.join(_D, "C*.json"))):
+    _pid = os.path.basename(_f)[:-5]
+    with open(_f) as _fh:
+        _d = json.load(_fh)
+    _subs = []
+    for _s in _d["subs"]:
+        _s = dict(_s)
+        _s.setdefault("tiers", ["quick", "thorough"])
+        for _t in ("quick", "thorough"):
+            if _t in _s:
+                _s[_t].setdefault("shards", 1)
+                _s[_t].setdefault("cases", 0)
+        _subs.append(_s)
+    CHECKS[_pid] = _subs
+    LEVEL[_pid] = _d.get("level", "exploration")
+    ASSUMPTIONS[_pid] = _d.get("assumptions", [])
+    META[_pid] = _d["meta"]
